@@ -79,7 +79,7 @@ PROPS = {
         "min": {"quick": {"c11.grace_obligations": 50, "c11.verifications": 50}},
         "rule": R("connection class: notification words over {disconnect, reconnect, closed} up to length 6 with gaps on a lattice around 100ms and the grace period, 4 grace settings, store outages and ownership changes during the outage, stops; notifications are injected through the handlers the monitor registers on an unconnected nats.Conn; oracle: grace timing, verification iff, deadlock watchdog"), "assumptions": SIM_ASSUME},
     "C12": {"level": "exploration", "trigger": ["c12.checks"],
-        "batches": [sim("health", 1500, 27300, chunk=100), sim("health2", 200, 4000), sim("multiterm", 60, 1000), sim("healthleak", 60, 600), sim("holdrace", 350, 3500), sim("healthconn", 24, 240)],
+        "batches": [sim("health", 1500, 27300, chunk=100), sim("health2", 200, 4000), sim("multiterm", 60, 1000), sim("healthleak", 60, 600), sim("holdrace", 350, 3500), sim("healthconn", 24, 240), sim("healthupd", 18, 180)],
         "min": {"quick": {"c12.health_demotions": 200, "c12.multi_term_histories": 100}},
         "rule": R("health class enumerates result words over {healthy, unhealthy, slow-false, slow-true} of length 1..6 x thresholds {0(default 3),1,2,3,4} (27300; thorough: all), each word repeated over several terms; oracle: reference counter replay over the checker's call log"), "assumptions": SIM_ASSUME},
     "C13": {"level": "exploration", "trigger": ["c13.claims", "c13.outside.Put"],
